@@ -320,9 +320,16 @@ public:
   /// or dequeue() operations will be woken up.
   void close()
   {
-    if (_closed.exchange(true, std::memory_order_acq_rel))
     {
-      return; // Already closed
+      // The flag must change under the mutex: a waiter that has evaluated its
+      // predicate (closed == false) still holds the mutex until it is parked, so
+      // taking the mutex here guarantees the notification below cannot fall into
+      // the gap between its predicate check and its wait (lost wake-up).
+      std::lock_guard<std::mutex> lock(_mutex);
+      if (_closed.exchange(true, std::memory_order_acq_rel))
+      {
+        return; // Already closed
+      }
     }
 
     // Wake all waiting threads
